@@ -51,6 +51,10 @@ type Zlisp struct {
 
 	// API use, since infix is already default at repl
 	WrapLoadExpressionsInInfix bool
+
+	// sandboxed is set by NewZlispSandbox: no access to files, processes,
+	// environment variables; nothing that ends the host process.
+	sandboxed bool
 }
 
 // allow clients to establish a callback to
@@ -89,7 +93,9 @@ func (env *Zlisp) Close() error {
 // NewZlispSandbox returns a new *Zlisp instance that does not allow the
 // user to get to the outside world
 func NewZlispSandbox() *Zlisp {
-	return NewZlispWithFuncs(SandboxSafeFunctions())
+	env := NewZlispWithFuncs(SandboxSafeFunctions())
+	env.sandboxed = true
+	return env
 }
 
 // NewZlispWithFuncs returns a new *Zlisp instance with access to only the given builtin functions
@@ -178,6 +184,7 @@ func (env *Zlisp) Clone() *Zlisp {
 	dupenv.showGlobalScope = env.showGlobalScope
 	dupenv.WrapLoadExpressionsInInfix = env.WrapLoadExpressionsInInfix
 	dupenv.booter = env.booter
+	dupenv.sandboxed = env.sandboxed
 	return dupenv
 }
 
@@ -210,6 +217,7 @@ func (env *Zlisp) Duplicate() *Zlisp {
 	dupenv.showGlobalScope = env.showGlobalScope
 	dupenv.WrapLoadExpressionsInInfix = env.WrapLoadExpressionsInInfix
 	dupenv.booter = env.booter
+	dupenv.sandboxed = env.sandboxed
 
 	return dupenv
 }
